@@ -77,6 +77,7 @@ type Case struct {
 	SlowDone int    `json:"slowdone"` // ms the reader of the done channel takes per node (0: prompt reader / no channel)
 	Done     int    `json:"done"`     // 1: Schedule gets a done channel with a prompt reader, as the agent passes one
 	Handler  string `json:"handler"`  // "": the printing node is a step; exit | success | failure | cancel: that handler
+	Same     int    `json:"same"`     // 1: `stdout:` and `stderr:` name the SAME file (both set); 2: ... and the file exists before the run
 	// observations
 	Hang       bool                `json:"hang"`
 	Err        string              `json:"err,omitempty"`
@@ -300,7 +301,14 @@ func workerMain() {
 		y.WriteString("    stdout: " + filepath.Join(dir, "stdout.txt") + "\n")
 	}
 	if c.Stderr {
-		y.WriteString("    stderr: " + filepath.Join(dir, "stderr.txt") + "\n")
+		if c.Same > 0 {
+			y.WriteString("    stderr: " + filepath.Join(dir, "stdout.txt") + "\n")
+		} else {
+			y.WriteString("    stderr: " + filepath.Join(dir, "stderr.txt") + "\n")
+		}
+	}
+	if c.Same == 2 { // content outside both pattern alphabets
+		_ = os.WriteFile(filepath.Join(dir, "stdout.txt"), []byte("0123456789\n"), 0644)
 	}
 	if c.Output {
 		y.WriteString("    output: OUTV\n")
@@ -597,7 +605,7 @@ func main() {
 				continue
 			}
 			in := Case{Stream: c.Stream, Stdout: c.Stdout, Stderr: c.Stderr, Output: c.Output, Script: c.Script, Retries: c.Retries,
-				Fails: c.Fails, Emit: c.Emit, Size: c.Size, Blk: c.Blk, SlowDone: c.SlowDone, Done: c.Done, Handler: c.Handler}
+				Fails: c.Fails, Emit: c.Emit, Size: c.Size, Blk: c.Blk, SlowDone: c.SlowDone, Done: c.Done, Handler: c.Handler, Same: c.Same}
 			add(&in)
 		}
 	} else {
@@ -659,6 +667,21 @@ func main() {
 					add(c)
 				}
 			}
+		}
+		// stdout: and stderr: naming the same file (fresh, or existing before the run), with and without retries
+		nsame := 10
+		if tier == "thorough" {
+			nsame = 120
+		}
+		for i := 0; i < nsame; i++ {
+			c := &Case{Stream: "samefile", Stdout: true, Stderr: true, Same: 1 + i%2, Output: rng.Chance(1, 3), Script: rng.Chance(1, 4),
+				Retries: []int{0, 1, 2}[rng.Below(3)], Emit: []string{"both", "both", "out", "err"}[rng.Below(4)],
+				Size: []int{1, 10, 100, 4095, 4096, 4097, 5000, 70000}[rng.Below(8)], Blk: blks[rng.Below(len(blks))], Done: rng.Below(2)}
+			c.Fails = c.Retries
+			if rng.Chance(1, 3) {
+				c.Fails = c.Retries + 1
+			}
+			add(c)
 		}
 		// a slow reader of the done channel (the agent writes the status file there): the stale worker of a
 		// failed attempt is still before its teardown when the next attempt is set up
